@@ -118,7 +118,7 @@ fn worker() -> i32 {
 }
 
 /// last line starts with `%` (a directive) and runs to the end of input without a line break: the reader path of the
-/// external scanner never returns on such input (known finding C01-reader-directive-eof-hang)
+/// external scanner never returned on such input before fix bfd6267 (finding C01-reader-directive-eof-hang, now fixed)
 pub fn in_known_hang_class(bytes: &[u8]) -> bool {
     let Ok(text) = std::str::from_utf8(bytes) else { return false };
     let text = text.strip_prefix('\u{feff}').unwrap_or(text);
@@ -222,7 +222,7 @@ fn generate(a: &Args) -> i32 {
                         if pos >= chunk.len() { break; }
                         let idx = chunk[pos];
                         let bytes = &inputs_ref[idx];
-                        let reader_too = !in_known_hang_class(bytes);
+                        let reader_too = true; // the former hanging class (fixed by bfd6267) is swept like every other input
                         if writeln!(cin, "{} {} {}", idx, if reader_too { "r" } else { "s" }, hex_bytes(bytes)).is_err() { out.push((idx, "abort".into())); pos += 1; break; }
                         let _ = cin.flush();
                         let t0 = Instant::now();
@@ -264,9 +264,10 @@ fn generate(a: &Args) -> i32 {
         let b = &inputs[idx];
         let kind = status.split(' ').next().unwrap_or("?").to_string();
         let name = if idx >= n_short { deep[idx - n_short].0.clone() } else { String::new() };
-        fails.push(serde_json::json!({"id": format!("C01-{kind}"), "what": format!("{status}"), "input": hex_bytes(&b[..b.len().min(4000)]), "input_text": String::from_utf8_lossy(&b[..b.len().min(200)]), "case": name}));
+        let id = if kind == "hang" && in_known_hang_class(b) { "C01-reader-directive-eof-hang".to_string() } else { format!("C01-{kind}") };
+        fails.push(serde_json::json!({"id": id, "what": format!("{status}"), "input": hex_bytes(&b[..b.len().min(4000)]), "input_text": String::from_utf8_lossy(&b[..b.len().min(200)]), "case": name}));
     }
-    // the known hanging class is exercised in its own killable process: still hangs => KNOWN finding line
+    // regression probe of the former hanging class (fixed entry in known_findings.json suppresses nothing)
     {
         let probe = b"%YAML".to_vec();
         let mut child = Command::new(&exe).args(["total", "worker"]).stdin(Stdio::piped()).stdout(Stdio::piped()).stderr(Stdio::null()).spawn().unwrap();
@@ -289,12 +290,12 @@ fn generate(a: &Args) -> i32 {
     let lines: Vec<String> = fails.iter().map(|f| f.to_string()).collect();
     std::fs::write(format!("{}/total.oracle.jsonl", a.out), lines.join("\n")).unwrap();
     sink.stats.insert("sweep.inputs".into(), inputs.len() as u64);
-    sink.stats.insert("sweep.known_hang_class_inputs_without_reader".into(), known_class);
+    sink.stats.insert("sweep.directive_eof_class_inputs".into(), known_class);
     sink.stats.insert("sweep.deep_inputs".into(), deep.len() as u64);
     let nt = sink.stats.get("distinct_nontrivial").copied().unwrap_or(0);
     sink.finish(&a.out, "total", serde_json::json!({
         "distinct_nontrivial": nt,
-        "rule": "ALL strings of up to 3 tokens (quick; thorough: 4, last level sampled 1/3) over the 33-token YAML indicator alphabet (- ? : , [ ] { } # & * ! | > ' \" % @ ` a 1 ~ newline space tab <<: --- ... BOM é &a *a '- '), mutated generated documents incl. invalid UTF-8, and pathological deep/wide inputs at the default budget boundary (depth 1999/2000/2001 flow, block, anchored, alias inside nesting; 100k-wide sequence; 1 MB scalar; 1100 documents): each x {slice, str/multi, reader, 1-byte reader, iterator} x 2 option vectors x 5 target types, every call under catch_unwind on an 8 MiB-stack thread inside killable worker processes with a per-case wall-clock limit; every returned error rendered with Display, Debug, render(), Default/Developer/User formatters. Inputs in the known hanging class (last line starts with % and has no blank) skip the reader entry points and are probed separately. Differential: from_str into the untyped target vs the model for every short string. Non-trivial = more than 2 parser events.",
+        "rule": "ALL strings of up to 3 tokens (quick; thorough: 4, last level sampled 1/3) over the 33-token YAML indicator alphabet (- ? : , [ ] { } # & * ! | > ' \" % @ ` a 1 ~ newline space tab <<: --- ... BOM é &a *a '- '), mutated generated documents incl. invalid UTF-8, and pathological deep/wide inputs at the default budget boundary (depth 1999/2000/2001 flow, block, anchored, alias inside nesting; 100k-wide sequence; 1 MB scalar; 1100 documents): each x {slice, str/multi, reader, 1-byte reader, iterator} x 2 option vectors x 5 target types, every call under catch_unwind on an 8 MiB-stack thread inside killable worker processes with a per-case wall-clock limit; every returned error rendered with Display, Debug, render(), Default/Developer/User formatters. Inputs whose last line starts with % and has no line break (hung the reader path before fix bfd6267) are swept like all others and probed once more separately. Differential: from_str into the untyped target vs the model for every short string. Non-trivial = more than 2 parser events.",
     }));
     0
 }
